@@ -203,6 +203,24 @@ def check(spec):
     if not _log_close(la, lb) or not _dict_close(ca, cb):
         raise Violation(f"scaling-compounds-requested-ranges:{tag}", f"{tspec}: {la} vs {lb}"[:400])
 
+    # (4b) through compositions: a member scaled on its own in between must not survive the next scaling of the composition
+    if tspec["k"] == "compose":
+        t = fresh()
+        _scale(t, fs[-1], tspec)
+        member = t.transforms[spec["key"] % len(t.transforms)]
+        if type(member).supports_scale_strength():
+            try:
+                member.scale_strength(spec["fg"][0])
+            except AssertionError:
+                raise Refused("KDRandomRotation.scale_strength requires lb == ub")
+            _scale(t, fs[-1], tspec)
+            a = attr_snapshot(t)
+            if not _dict_close(a, b):
+                k = next(k for k in b if k not in a or not _close(a[k], b[k]))
+                raise Violation(f"composition-keeps-stale-member-strength:{_leaf_of(t0, k)}",
+                                f"{tspec}: compose scaled to {fs[-1]}, member scaled to {spec['fg'][0]}, compose scaled to {fs[-1]} again: "
+                                f"{k}={a.get(k)} but a fresh instance scaled once has {b[k]}")
+
     # (2) scale(0): every requested range collapsed, identity where the transform has one
     z = fresh()
     _scale(z, 0.0, tspec)
